@@ -148,7 +148,9 @@ def build_harness(profile="fastdebug"):
         p = subprocess.run(cmd, cwd=hdir, env=env, stdout=subprocess.PIPE, stderr=subprocess.STDOUT, text=True, timeout=1800)
         if p.returncode != 0:
             raise BuildError(p.stdout[-4000:])
-        shutil.copy(os.path.join(CACHE, "target_alt", profile, "verif-harness"), out)
+        tmp = "%s.%d" % (out, os.getpid())          # replace atomically: another check may be executing the old copy
+        shutil.copy(os.path.join(CACHE, "target_alt", profile, "verif-harness"), tmp)
+        os.replace(tmp, out)
     return out
 
 
